@@ -3,6 +3,341 @@ From HT Require Import Common.Bytes C17.Model C17.Proofs C01.Model C01.Check.
 From Coq Require Import ZifyBool ZifyN ZifyNat.
 Open Scope Z_scope.
 
+(* ------------------------------------------------------------------ *)
+(* 1. handle                                                            *)
+
 Lemma handle_confines found send_ok s :
-  process_alive (server_handle found send_ok (RPanic s)) = true.
-Proof. unfold server_handle; destruct found, send_ok; reflexivity. Qed.
+  process_alive (server_handle found send_ok (RPanic s)) = true /\
+  (found = true -> server_handle found send_ok (RPanic s) = (if send_ok then ClosedWithEvent else ClosedLogged)).
+Proof. unfold server_handle; destruct found, send_ok; cbn; split; try reflexivity; intros; try reflexivity; discriminate. Qed.
+
+Lemma process_down_iff found send_ok r :
+  process_alive (server_handle found send_ok r) = false <-> found = true /\ exists s, r = RFatal s.
+Proof.
+  unfold server_handle; destruct found; cbn.
+  - destruct r; cbn; try destruct send_ok; cbn; split; intros H; try discriminate;
+      try (destruct H as [_ [s0 H]]; discriminate).
+    + split; [reflexivity | eexists; reflexivity].
+    + reflexivity.
+  - split; intros H; [discriminate | destruct H; discriminate].
+Qed.
+
+Lemma only_unguarded_goroutine : filter unguarded goroutines = [(24, 481, false, true)%N].
+Proof. vm_compute. reflexivity. Qed.
+
+(* ------------------------------------------------------------------ *)
+(* 2. ssh-simulator env / exec loop                                     *)
+
+Lemma avail_nonneg d : wf d -> 0 <= avail d.
+Proof. unfold wf, avail; lia. Qed.
+
+Lemma pd_string_spec d :
+  wf d ->
+  let d' := fst (pd_string d) in
+  wf d' /\ (avail d < 4 -> avail d' = avail d) /\ (4 <= avail d -> avail d' <= avail d - 4).
+Proof.
+  intros Hwf. unfold pd_string, read_prim.
+  destruct (has_bytes d 4) eqn:Hb.
+  - apply has_bytes_spec in Hb.
+    set (l := be_val (at_cursor d 4)).
+    unfold copy. destruct (l <? 0) eqn:Hl.
+    + cbn. unfold wf, avail, dlen, advance, set_err in *; cbn. lia.
+    + destruct (has_bytes (advance d 4) l) eqn:Hb2.
+      * apply has_bytes_spec in Hb2. cbn. unfold wf, avail, dlen, advance, set_err in *; cbn in *. lia.
+      * cbn. unfold wf, avail, dlen, advance, set_err in *; cbn in *. lia.
+  - assert (Hn : ~ (0 <= d_off d + 4 <= dlen d)) by (rewrite <- has_bytes_spec; congruence).
+    unfold copy. cbn [Z.ltb].
+    change (0 <? 0) with false. cbv iota.
+    destruct (has_bytes (set_err d) 0) eqn:Hb2.
+    + cbn. unfold wf, avail, dlen, advance, set_err in *; cbn in *. lia.
+    + cbn. unfold wf, avail, dlen, advance, set_err in *; cbn in *. lia.
+Qed.
+
+Lemma ssh_loop_stuck : forall fuel d acc,
+  wf d -> 1 <= avail d <= 3 ->
+  exists l, ssh_loop fuel d acc = OutOfFuel l /\ length l = (length acc + fuel)%nat.
+Proof.
+  induction fuel as [|f IH]; intros d acc Hwf Ha; cbn [ssh_loop].
+  - exists acc; split; [reflexivity | lia].
+  - destruct (avail d =? 0) eqn:E; [lia|].
+    pose proof (pd_string_spec d Hwf) as Hs. cbv zeta in Hs.
+    destruct (pd_string d) as [d' s] eqn:Hp. cbn [fst] in Hs.
+    destruct Hs as (Hwf' & Hlt & _).
+    destruct (IH d' (s :: acc) Hwf' ltac:(lia)) as (l & Hl & Hlen).
+    exists l; split; [exact Hl | cbn [length] in Hlen; lia].
+Qed.
+
+Lemma ssh_loop_decides : forall n d acc,
+  wf d -> avail d < Z.of_nat n ->
+  (exists l, forall m, (n <= m)%nat -> ssh_loop m d acc = Done l) \/
+  (forall m, exists l, ssh_loop m d acc = OutOfFuel l /\ length l = (length acc + m)%nat).
+Proof.
+  induction n as [|n IH]; intros d acc Hwf Hlt.
+  - pose proof (avail_nonneg d Hwf); lia.
+  - pose proof (avail_nonneg d Hwf) as H0.
+    destruct (Z.eq_dec (avail d) 0) as [Hz|Hnz].
+    + left; exists acc; intros m Hm. destruct m as [|m]; [lia|].
+      cbn [ssh_loop]. rewrite Hz. reflexivity.
+    + destruct (Z_lt_dec (avail d) 4) as [H3|H4].
+      * right; intros m. apply ssh_loop_stuck; [exact Hwf | lia].
+      * pose proof (pd_string_spec d Hwf) as Hs. cbv zeta in Hs.
+        destruct (pd_string d) as [d' s] eqn:Hp. cbn [fst] in Hs.
+        destruct Hs as (Hwf' & _ & Hge).
+        destruct (IH d' (s :: acc) Hwf' ltac:(lia)) as [(l & Hl) | Hr].
+        -- left; exists l; intros m Hm. destruct m as [|m]; [lia|].
+           cbn [ssh_loop]. destruct (avail d =? 0) eqn:E; [lia|]. rewrite Hp. apply Hl; lia.
+        -- right; intros m. destruct m as [|m].
+           ++ exists acc; cbn; split; [reflexivity | lia].
+           ++ destruct (Hr m) as (l & Hl & Hlen). exists l. cbn [ssh_loop].
+              destruct (avail d =? 0) eqn:E; [lia|]. rewrite Hp. split; [exact Hl|].
+              cbn [length] in Hlen; lia.
+Qed.
+
+Lemma new_decoder_avail p : avail (new_decoder p) = zlen p.
+Proof. unfold avail, new_decoder, dlen; cbn; lia. Qed.
+
+(* the fuel used by [ssh_request] decides: out of fuel there means out of fuel for ever,
+   with the slice one element longer per iteration *)
+Lemma ssh_fuel_decides p :
+  (exists l, forall m, (ssh_fuel p <= m)%nat -> ssh_loop m (new_decoder p) [] = Done l) \/
+  (forall m, exists l, ssh_loop m (new_decoder p) [] = OutOfFuel l /\ length l = m).
+Proof.
+  destruct (ssh_loop_decides (ssh_fuel p) (new_decoder p) [] (new_decoder_wf p)) as [H|H].
+  - rewrite new_decoder_avail. unfold ssh_fuel, zlen. lia.
+  - left; exact H.
+  - right; intros m. destruct (H m) as (l & Hl & Hlen). exists l; split; [exact Hl | cbn in Hlen; lia].
+Qed.
+
+Lemma ssh_request_fatal ty p s :
+  ssh_request ty p = RFatal s ->
+  s = F_SSH_LOOP /\ (ty = 1 \/ ty = 2)%N /\
+  forall m, exists l, ssh_loop m (new_decoder p) [] = OutOfFuel l /\ length l = m.
+Proof.
+  unfold ssh_request. destruct ((ty =? 1) || (ty =? 2))%N eqn:Et; [|discriminate].
+  destruct (ssh_loop (ssh_fuel p) (new_decoder p) []) eqn:El; [discriminate|].
+  intros H; inversion H; subst. split; [reflexivity|]. split; [lia|].
+  destruct (ssh_fuel_decides p) as [(l & Hl)|Hr]; [|exact Hr].
+  rewrite (Hl (ssh_fuel p)) in El by lia. discriminate.
+Qed.
+
+Lemma ssh_request_ok ty p :
+  ssh_request ty p = ROk ->
+  (ty = 1 \/ ty = 2)%N ->
+  exists l, forall m, (ssh_fuel p <= m)%nat -> ssh_loop m (new_decoder p) [] = Done l.
+Proof.
+  unfold ssh_request. intros H Ht.
+  replace ((ty =? 1) || (ty =? 2))%N with true in H by lia.
+  destruct (ssh_loop (ssh_fuel p) (new_decoder p) []) eqn:El; [|discriminate].
+  destruct (ssh_fuel_decides p) as [Hl|Hr]; [exact Hl|].
+  destruct (Hr (ssh_fuel p)) as (l & Hl & _). congruence.
+Qed.
+
+Lemma ssh_request_range ty p : ssh_request ty p = ROk \/ ssh_request ty p = RFatal F_SSH_LOOP.
+Proof.
+  unfold ssh_request. destruct ((ty =? 1) || (ty =? 2))%N; [|left; reflexivity].
+  destruct (ssh_loop _ _ _); [left|right]; reflexivity.
+Qed.
+
+(* outside the finding class - the payload's walk never leaves 1..3 bytes - no request is fatal *)
+Lemma ssh_payload_multiple_ok : forall n d acc,
+  wf d -> avail d < Z.of_nat n ->
+  (forall m l, ssh_loop m d acc <> OutOfFuel l \/ (m < n)%nat \/ True) -> True.
+Proof. trivial. Qed.
+
+(* ------------------------------------------------------------------ *)
+(* 3. tftp                                                              *)
+
+Lemma pop_thread_forall (P : list mop -> Prop) :
+  (forall o t, P (o :: t) -> P t) ->
+  forall ts i o ts', Forall P ts -> pop_thread i ts = Some (o, ts') ->
+  Forall P ts' /\ exists t, In (o :: t) ts.
+Proof.
+  intros Htail. induction ts as [|t r IH]; intros i o ts' Hall Hp; [destruct i; discriminate|].
+  inversion Hall as [|? ? Ht Hr]; subst.
+  destruct i as [|j]; cbn [pop_thread] in Hp.
+  - destruct t as [|o0 t0]; [discriminate|]. inversion Hp; subst.
+    split; [constructor; [eapply Htail; exact Ht | exact Hr] | exists t0; left; reflexivity].
+  - destruct (pop_thread j r) as [[o1 r1]|] eqn:E; [|discriminate]. inversion Hp; subst.
+    destruct (IH j o r1 Hr E) as (Hr1 & t1 & Hin).
+    split; [constructor; assumption | exists t1; right; exact Hin].
+Qed.
+
+Lemma has_write_tail o t : has_write (o :: t) = false -> has_write t = false.
+Proof. unfold has_write; cbn [existsb]. destruct o; cbn; intros H; try exact H; discriminate. Qed.
+
+Lemma tftp_no_writer_safe_aux : forall sched ts,
+  Forall (fun t => has_write t = false) ts ->
+  trun (mkT ts false) sched <> TFatal.
+Proof.
+  induction sched as [|i r IH]; intros ts Hall; cbn [trun]; [discriminate|].
+  unfold tstep; cbn [t_threads t_writing].
+  destruct (pop_thread i ts) as [[o ts']|] eqn:Hp.
+  - destruct (pop_thread_forall (fun t => has_write t = false) has_write_tail ts i o ts' Hall Hp) as (Hall' & t & Hin).
+    destruct o; try (apply IH; exact Hall').
+    exfalso. rewrite Forall_forall in Hall. specialize (Hall _ Hin). unfold has_write in Hall; cbn in Hall. discriminate.
+  - apply IH; exact Hall.
+Qed.
+
+(* one connection at a time: a well-bracketed program never trips the check *)
+Fixpoint wb (t : list mop) : bool :=
+  match t with
+  | [] => true
+  | MWBegin :: MWEnd :: r => wb r
+  | MWBegin :: _ => false
+  | MWEnd :: _ => false
+  | _ :: r => wb r
+  end.
+
+Definition wb_open (t : list mop) : bool :=
+  match t with MWEnd :: r => wb r | _ => false end.
+
+Lemma tftp_single_safe_aux : forall sched t w,
+  (if w then wb_open t else wb t) = true ->
+  trun (mkT [t] w) sched <> TFatal.
+Proof.
+  induction sched as [|i r IH]; intros t w Hw; cbn [trun]; [discriminate|].
+  unfold tstep; cbn [t_threads t_writing].
+  destruct i as [|j]; cbn [pop_thread].
+  - destruct t as [|o t']; [apply IH; exact Hw|].
+    destruct w.
+    + (* writing: the next operation is MWEnd *)
+      destruct o; cbn in Hw; try discriminate. apply (IH t' false). exact Hw.
+    + destruct o.
+      * apply (IH t' false). exact Hw.
+      * apply (IH t' false). exact Hw.
+      * apply (IH t' true). destruct t' as [|o2 t2]; cbn in Hw; [discriminate|].
+        destruct o2; try discriminate. cbn. exact Hw.
+      * cbn in Hw. discriminate.
+  - destruct t; apply IH; exact Hw.
+Qed.
+
+Lemma wb_app a b : wb a = true -> wb b = true -> wb (a ++ b) = true.
+Proof.
+  revert b. induction a as [a IH] using (well_founded_induction (Wf_nat.well_founded_ltof _ (@length mop))).
+  intros b Ha Hb. destruct a as [|o a']; [exact Hb|].
+  destruct o; cbn [app].
+  - cbn in Ha |- *. apply IH; [unfold Wf_nat.ltof; cbn; lia | exact Ha | exact Hb].
+  - cbn in Ha |- *. apply IH; [unfold Wf_nat.ltof; cbn; lia | exact Ha | exact Hb].
+  - destruct a' as [|o2 a2]; [cbn in Ha; discriminate|].
+    destruct o2; cbn in Ha; try discriminate. cbn [app wb].
+    apply IH; [unfold Wf_nat.ltof; cbn; lia | exact Ha | exact Hb].
+  - cbn in Ha. discriminate.
+Qed.
+
+Lemma tftp_prog_wb k p h l : wb (tftp_prog k p h l) = true.
+Proof. unfold tftp_prog. destruct (k =? 2)%N, (k =? 3)%N, p, h, l; reflexivity. Qed.
+
+Lemma tftp_thread_wb : forall dgs has, wb (tftp_thread has dgs) = true.
+Proof.
+  induction dgs as [|dg r IH]; intros has; cbn [tftp_thread]; [reflexivity|].
+  apply wb_app; [apply tftp_prog_wb | apply IH].
+Qed.
+
+(* ------------------------------------------------------------------ *)
+(* 4. vnc                                                               *)
+
+Definition vp_state (p : vparse) : vstate :=
+  match p with VEnd s _ => s | VFail s => s end.
+
+(* a dangerous state needs the pusher goroutine: without a FramebufferUpdateRequest
+   nothing a client sends can take the process down *)
+Definition danger_needs_pusher (s : vstate) : Prop := v_danger s = true -> v_pusher s = true.
+
+Lemma v_note_inv s : danger_needs_pusher s -> danger_needs_pusher (v_note s).
+Proof.
+  unfold danger_needs_pusher, v_note; cbn. intros H Hd.
+  apply orb_true_iff in Hd as [Hd|Hd]; [auto | apply andb_true_iff in Hd; tauto].
+Qed.
+
+Lemma vnc_cmds_inv : forall fuel s l,
+  danger_needs_pusher s -> danger_needs_pusher (vp_state (vnc_cmds fuel s l)).
+Proof.
+  induction fuel as [|f IH]; intros s l Hs; cbn [vnc_cmds]; [exact Hs|].
+  destruct l as [|c r]; [exact Hs|].
+  destruct (c =? 0)%N.
+  { destruct (take 19 r) as [[m r']|]; [|exact Hs].
+    apply IH. apply v_note_inv. unfold danger_needs_pusher in *; cbn. exact Hs. }
+  destruct (c =? 2)%N.
+  { destruct (take 3 r) as [[m r']|]; [|exact Hs].
+    destruct (take _ r') as [[m2 r'']|]; [|exact Hs]. apply IH; exact Hs. }
+  destruct (c =? 3)%N.
+  { assert (H1 : danger_needs_pusher (v_note (mkV (v_fmt s) true (v_danger s)))).
+    { apply v_note_inv. unfold danger_needs_pusher; cbn. reflexivity. }
+    destruct (take 9 r) as [[m r']|]; [apply IH; exact H1 | exact H1]. }
+  destruct (c =? 4)%N.
+  { destruct (take 7 r) as [[m r']|]; [apply IH; exact Hs | exact Hs]. }
+  destruct (c =? 5)%N.
+  { destruct (take 5 r) as [[m r']|]; [apply IH; exact Hs | exact Hs]. }
+  exact Hs.
+Qed.
+
+(* the format is only ever changed by SetPixelFormat: while the pusher is not running
+   and no SetPixelFormat/update request arrives, the state stays as it is *)
+Lemma vnc_parse_inv stream : danger_needs_pusher (vp_state (vnc_parse stream)).
+Proof.
+  assert (Hi : danger_needs_pusher v_init) by (unfold danger_needs_pusher; cbn; discriminate).
+  assert (Hc : forall r, danger_needs_pusher (vp_state (vnc_client_init r))).
+  { intros r; unfold vnc_client_init; destruct r; [exact Hi | apply vnc_cmds_inv; exact Hi]. }
+  unfold vnc_parse. destruct (upto_nl stream) as [[ver r]|]; [|exact Hi].
+  destruct (eqb_bytes ver V3); [apply Hc|].
+  destruct (eqb_bytes ver V7 || eqb_bytes ver V8); [|exact Hi].
+  destruct r as [|w r']; [exact Hi|]. destruct (w =? 1)%N; [apply Hc | exact Hi].
+Qed.
+
+Lemma vnc_verdict_needs_pusher stream :
+  vnc_verdict stream <> 0%N -> v_pusher (vp_state (vnc_parse stream)) = true.
+Proof.
+  pose proof (vnc_parse_inv stream) as H. unfold vnc_verdict, danger_needs_pusher in *.
+  destruct (vnc_parse stream) as [s c|s]; cbn [vp_state] in *.
+  - destruct (v_pusher s); [reflexivity|]. cbn. destruct (v_danger s); [intros _; apply H; reflexivity | congruence].
+  - destruct (v_danger s); [intros _; apply H; reflexivity | congruence].
+Qed.
+
+Lemma push_fails_spec f :
+  push_fails f = false <->
+  pf_tc f <> 0%N /\ (is_thousands f = true \/ pf_bpp f = 32 \/ pf_bpp f = 16 \/ pf_bpp f = 8)%N.
+Proof. unfold push_fails. destruct (is_thousands f); cbn; lia. Qed.
+
+Lemma default_format_safe : push_fails pf_default = false.
+Proof. reflexivity. Qed.
+
+(* ------------------------------------------------------------------ *)
+(* 5. counterstrike, adb                                                *)
+
+Lemma cs_never_fatal dg : cs_handle dg = ROk \/ cs_handle dg = RPanic 1.
+Proof.
+  unfold cs_handle. destruct (_ || _); [|left; reflexivity].
+  destruct (_ <=? _)%nat; [right|left]; reflexivity.
+Qed.
+
+Lemma adb_loop_never_fatal : forall segs buf, adb_loop buf segs = ROk \/ adb_loop buf segs = RPanic 2.
+Proof.
+  induction segs as [|s r IH]; intros buf; cbn [adb_loop]; [left; reflexivity|].
+  destruct (_ || _).
+  - destruct (_ <? _)%nat; [right; reflexivity | apply IH].
+  - destruct (eqb_bytes _ CLSE); [left; reflexivity | apply IH].
+Qed.
+
+Lemma adb_never_fatal segs : adb_handle segs = ROk \/ adb_handle segs = RPanic 2.
+Proof.
+  unfold adb_handle. destruct segs as [|s r]; [left; reflexivity|].
+  destruct (negb _); [left; reflexivity|].
+  destruct (_ <? _)%nat; [right; reflexivity | apply adb_loop_never_fatal].
+Qed.
+
+(* ------------------------------------------------------------------ *)
+(* 6. declared-length allocation                                        *)
+
+Lemma alloc_fatal_iff L : alloc_verdict L = 2%N <-> MEM_SURE < L <= MAXALLOC.
+Proof.
+  unfold alloc_verdict, MEM_SURE, MAXALLOC, MEM_SAFE.
+  destruct (L <? 0) eqn:E1; [lia|]. destruct (2 ^ 48 <? L) eqn:E2; [lia|].
+  destruct (2 ^ 36 <? L) eqn:E3; [lia|]. destruct (2 ^ 26 <? L) eqn:E4; lia.
+Qed.
+
+Lemma alloc_small_fine L : 0 <= L <= MEM_SAFE -> alloc_verdict L = 0%N.
+Proof.
+  unfold alloc_verdict, MEM_SURE, MAXALLOC, MEM_SAFE. intros H.
+  destruct (L <? 0) eqn:E1; [lia|]. destruct (2 ^ 48 <? L) eqn:E2; [lia|].
+  destruct (2 ^ 36 <? L) eqn:E3; [lia|]. destruct (2 ^ 26 <? L) eqn:E4; [lia|reflexivity].
+Qed.
